@@ -396,7 +396,8 @@ class C12(Property):
         if tier == "quick":
             return {"depth": 0, "tols": [None, 0], "deep_tries_integer_only": True,
                     "tries": [(s, v, 2) for s in B.SHAPES if s != "large" for v in ("pure", "mixed", "shared")]
-                    + [("tri", "pure", 3), ("mixed", "mixed", 3), ("quad", "shared", 3)],
+                    + [("tri", "pure", 3), ("cubic", "mixed", 3), ("quad", "shared", 3), ("mixed", "pure", 3),
+                       ("two", "mixed", 3), ("offstart", "shared", 3)],
                     "palette": B.QUICK_TRANSFORMS,
                     "dev_singles": ["tri", "cubic", "quad", "mixed", "two", "offstart"],
                     "dev_pairs": ["tri"], "width_info": WIDTH_INFO[:6], "modules": ["ufoLib2"]}
@@ -413,9 +414,12 @@ class C12(Property):
         for tol in b["tols"]:
             for (s, v, d) in b["tries"]:
                 if d > 2 and tol is not None and tol < 0.5 and b.get("deep_tries_integer_only"):
-                    continue  # fractional 16.16 charstrings of 821 glyphs x 17 compiles cost 10-25 s
-                out.append([{"part": "trie", "shape": s, "variant": v, "d": d, "palette": b["palette"],
-                             "tol": tol}])
+                    continue
+                # a depth-3 trie (821 glyphs, 17 compiles) is split into its first-level branches so that
+                # no state costs more than a few seconds
+                for br in (range(len(b["palette"])) if d > 2 else [None]):
+                    out.append([{"part": "trie", "shape": s, "variant": v, "d": d, "palette": b["palette"],
+                                 "tol": tol, "branch": br}])
             for (s, v, d) in b.get("wide_tries", ()):
                 out.append([{"part": "trie", "shape": s, "variant": v, "d": d, "palette": B.ALL_TRANSFORMS,
                              "tol": tol}])
@@ -439,6 +443,11 @@ class C12(Property):
         info = {}
         if c["part"] == "trie":
             glyphs = trie_glyphs(c["shape"], c["variant"], c["palette"], c["d"])
+            br = c.get("branch")
+            if br is not None:
+                keep = "n%d" % br
+                glyphs = {n: g for n, g in glyphs.items()
+                          if n in (".notdef", "r", keep) or n.startswith(keep + "_")}
         elif c["part"] == "dev":
             allg = deviation_glyphs(c["shape"], c["k"])
             names = chunks(allg)[c["chunk"]]
